@@ -311,6 +311,15 @@ func (in *Interp) modelSide(c *T) (known bool, side bool) {
 	return true, v == 1
 }
 
+// resync rebuilds the solver state of the current path after the solver process had to be killed.
+func (in *Interp) resync() {
+	in.sol.restart()
+	in.sol.Push()
+	for _, t := range in.pc {
+		in.sol.Assert(t)
+	}
+}
+
 // checkSide asks the solver whether pc ∧ t is satisfiable; a model is kept when it is and t is then assumed.
 func (in *Interp) checkSide(t *T) string {
 	in.sol.emit(t)
@@ -320,6 +329,11 @@ func (in *Interp) checkSide(t *T) string {
 	if r == "sat" {
 		// a model of pc ∧ t is in particular a model of pc
 		in.curModel = in.sol.Model(in.vars)
+		if in.sol.dead {
+			in.curModel = nil
+			in.resync()
+			return r
+		}
 	}
 	in.sol.Pop()
 	return r
@@ -411,6 +425,19 @@ func (in *Interp) modelWith(extra *T) (map[string]uint64, string) {
 	var m map[string]uint64
 	if r == "sat" {
 		m = in.sol.Model(in.vars)
+		if in.sol.dead {
+			// the primary solver hung while printing the model: rebuild it and ask z3 5.1.0 for the model
+			in.resync()
+			q := append([]*T(nil), in.pc...)
+			if extra != nil {
+				q = append(q, extra)
+			}
+			m = ModelOneShot(q, in.vars, in.cfg.TimeoutMs)
+			if m == nil {
+				return nil, "unknown"
+			}
+			return m, r
+		}
 	}
 	in.sol.Pop()
 	return m, r
